@@ -693,7 +693,7 @@ func init() {
 	register(&Property{
 		ID:    "C13",
 		Level: "other",
-		Rules: []Rule{{"T-order/T-heap", ruleTOrderHeap}, {"T-contract", ruleTContracts}, {"T-lin", ruleTLin}, {"T-agg", ruleTAgg}, {"V4", ruleV2}, {"Y3", ruleLayoutNode}, {"W1", ruleW1}, {"K1", ruleK1}, {"K6", ruleK6}, {"V8", ruleV8}, {"S1c", ruleS1c}},
+		Rules: []Rule{{"T-order/T-heap", ruleTOrderHeap}, {"T-contract", ruleTContracts}, {"T-lin", ruleTLin}, {"T-agg", ruleTAgg}, {"V4", ruleV2}, {"Y3", ruleLayoutNode}, {"W1", ruleW1}, {"K1", ruleK1}, {"K6", ruleK6}, {"V8", ruleV8}, {"S1c", ruleS1c}, {"E3b", ruleE3b}},
 		Explanation: "An assume/guarantee argument by induction on tree height, checked per function with a small closure prover over symbolic tree terms extracted from the SSA (parameter trees, L/R parts, the three results of split, results of union/join, constructed nodes) and order/priority/emptiness facts read off the dominating guards (three-way comparator dispatch, priority test, isEmpty/nil tests). T-order: at every mkNode site of union/split/join every key of the left child is below and every key of the right child above the node's key. T-heap: every priority below a constructed node is <= the node's (the equal-key replacement site is exempt, as the property says). T-contract: at every success return the results are bounded by whatever bounds the inputs (keys from both sides, priorities), split returns left < s < right with the middle carrying s, and every call of join is on key-separated trees. T-lin: the multiset of items/subtrees in the results equals that of the inputs (only the equal-key loser is dropped). T-agg: every constructed node carries numInfo(L,R) sums + 1 and + its own item's bytes for exactly its children and item; numInfo reads the children's stored aggregates; mkNode stores them; the encoder persists them (Y3). V4 reported depth = recursion depth. Hence every published tree is a search tree with exact aggregates and heap order, for all inputs and histories, GIVEN that nodes read back are the nodes written (C14, C02) and the comparator is a strict weak order. Uniqueness of shape for distinct priorities is the standard consequence and is not re-derived.",
 		Assumptions: []string{"comparator is a strict weak order (documented contract of KeyCompare)", "nodes read back are the nodes written (C14/C02)", "eviction does not change structure (C05 W1)"},
 		ControlSrc:   "package gkvlite\n",
